@@ -92,7 +92,7 @@ def gen_chain(root, rng):
             ws.files[f"{sp}/__editable__.wsplug-0.1.pth"] = root + "\n"
     # tests using the name at every depth
     for d in list(DIRS.values()):
-        body = gen.HEADER
+        body = "\n" * rng.randint(0, 2) + gen.HEADER      # (line numbers of usages coincide with definition lines elsewhere)
         if d == "a/b/c" and samefile_src:
             if rng.random() < 0.5:
                 body += samefile_src
@@ -384,6 +384,14 @@ def lsp_level(ctx, ws, model, order):
                 if (pf, pl, 0) not in locs:
                     ctx.violation({"kind": "references-from-parameter-not-about-parent"},
                                   {"locs": sorted((os.path.relpath(a, ws.root), b, c) for a, b, c in locs),
+                                   "parent": (os.path.relpath(pf, ws.root), pl), "spec": ws.spec}, files=ws.files)
+                # the caret right after the parameter: nothing, or again the parent - never the overriding fixture itself
+                r = srv.references(f, u["line"] - 1, u["end_b"])
+                locs2 = {(uri_to_path(x["uri"]), x["range"]["start"]["line"] + 1, x["range"]["start"]["character"]) for x in (r.get("result") or [])}
+                ctx.judged()
+                if locs2 and ((f, d["line"], 0) in locs2 or (pf, pl, 0) not in locs2) and (pf, pl) != (f, d["line"]):
+                    ctx.violation({"kind": "references-right-after-the-parameter-concern-the-overriding-fixture"},
+                                  {"locs": sorted((os.path.relpath(a, ws.root), b, c) for a, b, c in locs2),
                                    "parent": (os.path.relpath(pf, ws.root), pl), "spec": ws.spec}, files=ws.files)
         ctx.count("lsp_chains")
     finally:
